@@ -206,6 +206,12 @@ def main(P, tier, replay=None):
                 if err is not None:
                     ctx["open_obligations"].append({"kind": "translation", "what": "GenEq/%s.v: the definition regenerated from /repo's source is no longer shown equal to the model definition the theorems are about" % n, "log": err})
         ctx["tie1"] = tie1
+        # tie T1, step 3: the bodies were read under the pinned name-resolution environment (macros, imports, traits, impl headers ...)
+        if P.gen_scope and report is not None:
+            from . import inventory
+            for f, (added, removed) in inventory.affects(P.gen_scope).items():
+                ctx["open_obligations"].append({"kind": "environment", "what": "items outside function bodies changed in %s: what the unchanged bodies mean may have changed (macro, import, trait or impl that shadows a name; overridden trait method; type definition)" % f,
+                                                "log": "added: %s\nremoved: %s" % ("; ".join(x[:300] for x in added), "; ".join(x[:300] for x in removed))})
         # search support: literals the current source adds to the pinned one become boundary values of the generators
         try:
             from . import dictionary, fam_api, fam_rf, fam_adapters, fam_aadapters
